@@ -304,7 +304,62 @@ func H_C09_posfault(v *V) {
 	}
 }
 
+type c09Put struct {
+	Name string `long:"name" required:"true"`
+	Pos  struct {
+		File string
+		More []string
+	} `positional-args:"yes"`
+	log *c09Log
+}
+
+func (c *c09Put) Execute(a []string) error { return c.log.run("put", a) }
+
+// H_C09_reqpos: a command with a required option and optional positional
+// arguments - whether or not the positionals are filled, a missing required
+// option means nothing runs.
+func H_C09_reqpos(v *V) {
+	log := &c09Log{}
+	put := &c09Put{log: log}
+	p := NewNamedParser("prog", PassDoubleDash)
+	p.AddGroup("Application Options", "", &c09Root{})
+	p.AddCommand("put", "", "", put)
+	withName := v.Choice(2) == 1
+	nWords := v.Choice(3)
+	argv := []string{"put"}
+	namePos := v.Choice(nWords + 1)
+	for i := 0; i <= nWords; i++ {
+		if withName && i == namePos {
+			nm := v.String(1)
+			v.Assume(nm != "\"") // a lone quote is an unterminated literal (C02's subject)
+			argv = append(argv, "--name="+nm)
+		}
+		if i < nWords {
+			w := v.String(1)
+			v.Assume(w != "-")
+			argv = append(argv, "w"+w)
+		}
+	}
+	rest, err := p.ParseArgs(argv)
+	vObsErr(v, err)
+	v.ObserveInt("runs", len(log.ids))
+	if !withName {
+		v.Reach("faulty")
+		t, typed := vErrType(err)
+		v.Assert(err != nil && typed && t == ErrRequired, "a missing required option fails with ErrRequired whether or not positional arguments were given")
+		v.Assert(len(log.ids) == 0, "nothing is executed when a required option is missing")
+		return
+	}
+	v.Reach("clean")
+	v.Assert(err == nil, "the complete vector parses")
+	v.Assert(len(log.ids) == 1 && log.ids[0] == "put", "exactly one command invocation after a clean parse")
+	if len(log.ids) == 1 {
+		v.Assert(v.EqStrs(log.args[0], rest) && len(rest) == 0, "all words were bound, none remains")
+	}
+}
+
 func init() {
+	vHarnesses["H_C09_reqpos"] = H_C09_reqpos
 	vHarnesses["H_C09_posfault"] = H_C09_posfault
 	vHarnesses["H_C09_exec"] = H_C09_exec
 	vHarnesses["H_C09_completion"] = H_C09_completion
